@@ -107,26 +107,26 @@ def build():
 
     for order in ("total", "raises", "partial"):
         p.add(Contract(
-            LEMMA, "batch_setitems_two_runs", variant="keys-" + order, props=["C08"], globals=glob, ghost=dict(ORDER=order),
+            LEMMA, "batch_setitems_two_runs", variant="keys-" + order, props=["C08", "C06"], globals=glob, ghost=dict(ORDER=order),
             inline={"_batch_setitems"},
             params=dict(h1=hasher(), h2=hasher(), items_a=seq("A"), items_b=seq("B")),
             ensures={"same_tokens_whatever_the_insertion_order_and_seed":
                      "n_ev() == 2 and same_token(ev(0)[1], ev(1)[1])"},
         ))
         p.add(Contract(
-            LEMMA, "consistent_set_two_runs", variant="elements-" + order, props=["C08"], globals=glob, ghost=dict(ORDER=order),
+            LEMMA, "consistent_set_two_runs", variant="elements-" + order, props=["C08", "C06"], globals=glob, ghost=dict(ORDER=order),
             inline={"__init__"},
             params=dict(seq_a=seq("A"), seq_b=seq("B")),
             ensures={"same_sequence_whatever_the_iteration_order_and_seed": "same_token(result[0], result[1])"},
         ))
     p.add(Contract(
-        LEMMA, "consistent_set_two_runs", variant="elements-raises-decimal", props=["C08"], globals=glob, ghost=dict(ORDER="raises-decimal"),
+        LEMMA, "consistent_set_two_runs", variant="elements-raises-decimal", props=["C08", "C06"], globals=glob, ghost=dict(ORDER="raises-decimal"),
         inline={"__init__"},
         params=dict(seq_a=seq("A"), seq_b=seq("B")),
         ensures={"same_sequence_whatever_the_iteration_order_and_seed": "same_token(result[0], result[1])"},
     ))
     p.add(Contract(
-        LEMMA, "save_set_two_runs", props=["C08"], globals=glob, ghost=dict(ORDER="total"),
+        LEMMA, "save_set_two_runs", props=["C08", "C06"], globals=glob, ghost=dict(ORDER="total"),
         inline={"save_set", "__init__"},
         params=dict(h1=hasher(), h2=hasher(), set_a=seq("A"), set_b=seq("B")),
         ensures={"sets_go_through_the_normalising_wrapper":
@@ -135,7 +135,7 @@ def build():
 
     # ---- memoize: str / bytes are never memoised (equal strings at different addresses hash alike); everything else deferred unchanged
     p.add(Contract(
-        H, "Hasher.memoize", props=["C08"], globals=glob,
+        H, "Hasher.memoize", props=["C08", "C06"], globals=glob,
         params=dict(self=hasher(), obj=OneOf(STR, BYTES, OpaqueOf("tuple_or_frozenset"), OpaqueOf("otherobj"))),
         ensures={"strings_never_memoised": "implies(isinstance(obj, (bytes, str)), n_ev() == 0)",
                  # a pure function of the value cannot depend on whether two equal immutable values are one object or two (known finding K8)
@@ -166,7 +166,7 @@ def build():
     p.spec_funcs["n_events"] = lambda interp, name: sum(1 for e in interp.ctx.events if e[0] == name)
     p.spec_funcs["event_arg"] = lambda interp, name, i: next(e[i + 1] for e in interp.ctx.events if e[0] == name)
     p.add(Contract(
-        H, "Hasher.__init__", props=["C08"], globals=glob,
+        H, "Hasher.__init__", props=["C08", "C06"], globals=glob,
         params=dict(self=hasher(), hash_name=OneOf("md5", "sha1")),
         ensures={"protocol_fixed_to_3": "n_events('Pickler.__init__') == 1 and event_arg('Pickler.__init__', 0) == 3",
                  "pickles_into_its_own_stream": "event_arg('Pickler.__init__', 1) is self.stream",
@@ -181,7 +181,7 @@ def build():
 
     p.models["Hasher.dump"] = dump
     p.add(Contract(
-        H, "Hasher.hash", props=["C08"], globals=glob,
+        H, "Hasher.hash", props=["C08", "C06"], globals=glob,
         params=dict(self=ObjOf("Hasher", stream=OpaqueOf("bytesio"), _hash=OpaqueOf("hashobj", algo=STR)), obj=OpaqueOf("value"), return_digest=OneOf(True, False)),
         ensures={"digest_over_exactly_the_stream": "n_events('dump') == 1 and event_arg('dump', 0) is obj and n_events('hash.update') == 1 "
                                                    "and event_arg('hash.update', 0) is STREAM",
@@ -199,7 +199,7 @@ def build():
     hglob["NumpyHasher"] = _Fn(new_hasher)
     hglob["sys"] = Opaque("sysmod", None, modules=PyDict({}))
     p.add(Contract(
-        H, "hash", props=["C08"], globals=hglob,
+        H, "hash", props=["C08", "C06"], globals=hglob,
         params=dict(obj=OpaqueOf("value"), hash_name=OneOf("md5", "sha1", "sha256"), coerce_mmap=False),
         ensures={"valid_algorithm": "hash_name == 'md5' or hash_name == 'sha1'",
                  "fresh_hasher_per_call": "n_events('new Hasher') == 1 and event_arg('new Hasher', 0) == hash_name",
